@@ -1,7 +1,7 @@
 (* C09 -- Schedules conclude, repeat and report exhaustion exactly as documented
    Property theorems only: each proof is one application of a lemma proved in Proofs/, followed by Print Assumptions. *)
 From Coq Require Import ZArith List Bool.
-From CS Require MSTerm OnlineFlags Flags RevConv RevBridge4 RevolveRun PassRepeat Online.
+From CS Require MSTerm OnlineFlags Flags RevConv RevBridge4 RevolveRun PassRepeat Online DiskRun DiskBridge3.
 From CS Require Import Actions NAdvance Multistage Exec Sched RunFacts Projections BasicInv MultistageRun AllocTotal TLBridge MixBridge.
 Import ListNotations.
 Open Scope Z_scope.
@@ -112,6 +112,52 @@ Theorem C09_revolve_terminates :
 Proof. exact (@RevolveRun.revolve_terminates). Qed.
 Print Assumptions C09_revolve_terminates.
 End M_C09_revolve_terminates.
+
+(* the offline DiskRevolve schedule concludes (is_exhausted True after 2 |ops| + 2 requests at most) *)
+Module M_C09_disk_revolve_terminates.
+Import DiskRun.
+Theorem C09_disk_revolve_terminates :
+  forall N ram disk uf ub wd rd : Z,
+         1 <= N ->
+         1 <= ram ->
+         exists (L : list Ops.op) (K : nat),
+           RevConv.sequence RevConv.KDiskRevolve N ram disk uf ub wd rd = Actions.Ok L /\
+           (forall k : nat,
+            (K <= k)%nat ->
+            let
+            '(s', m, ls) :=
+             Sched.run_ops (disk_xparams N ram)
+               {|
+                 Sched.ob := Sched.ORevF RevConv.KDiskRevolve N ram disk (RevConv.init_r L);
+                 Sched.started := false
+               |} Sched.mon0 (repeat Sched.Next k) in
+             RunFacts.no_raise ls /\ DiskBridge3.leftover_or_ok m /\ Sched.is_exhausted s' = true).
+Proof. exact (@DiskRun.disk_revolve_terminates). Qed.
+Print Assumptions C09_disk_revolve_terminates.
+End M_C09_disk_revolve_terminates.
+
+(* the offline PeriodicDiskRevolve schedule concludes *)
+Module M_C09_periodic_terminates.
+Import DiskRun.
+Theorem C09_periodic_terminates :
+  forall N ram disk uf ub wd rd : Z,
+         1 <= N ->
+         1 <= ram ->
+         exists (L : list Ops.op) (K : nat),
+           RevConv.sequence RevConv.KPeriodic N ram disk uf ub wd rd = Actions.Ok L /\
+           (forall k : nat,
+            (K <= k)%nat ->
+            let
+            '(s', m, ls) :=
+             Sched.run_ops (disk_xparams N ram)
+               {|
+                 Sched.ob := Sched.ORevF RevConv.KPeriodic N ram disk (RevConv.init_r L);
+                 Sched.started := false
+               |} Sched.mon0 (repeat Sched.Next k) in
+             RunFacts.no_raise ls /\ DiskBridge3.leftover_or_ok m /\ Sched.is_exhausted s' = true).
+Proof. exact (@DiskRun.periodic_terminates). Qed.
+Print Assumptions C09_periodic_terminates.
+End M_C09_periodic_terminates.
 
 (* the offline Mixed schedule concludes: exhausted within N (N + 3) + N + 2 requests *)
 Module M_C09_mixed_terminates.
